@@ -132,14 +132,52 @@ def rule_l2(chk: Check, ix: Index):
     ts = ix.classes.get("TokenizerState")
     if ep is None or ts is None:
         raise AnalysisError("EndProg/TokenizerState vanished")
-    join = ix.get("EndProg.join")
-    chk.count("L2-accumulation")
-    chk.require([norm_stmt(s) for s in join.node.body] == ["self.text += state.line[state.pos:end]"], "L2-accumulation",
-                "EndProg.join", join.where, "join must append exactly the unread part of the line up to `end`")
-    jl = ix.get("EndProg.join_line")
-    chk.count("L2-accumulation")
-    chk.require(sorted(norm_stmt(s) for s in jl.node.body) == ["self.contline += state.line", "self.text += state.line[state.pos:]"],
-                "L2-accumulation", "EndProg.join_line", jl.where, "join_line must append exactly the unread rest of the line")
+    # text: exactly the unread part of the line; line record: every physical line the text lies on, first to current, once each
+    # (decided on path sets with the line-covering helper inlined, so helper-vs-inline and if/else shapes do not matter)
+    from ..pyflow import stmt_paths
+
+    def paths_of(q: str):
+        f = ix.get(q)
+        out = set()
+        for pth in stmt_paths(f.node.body):
+            variants = [()]
+            for x in pth:
+                m = _re.fullmatch(r"self\.(\w+)\(state\)", x[1]) if x[0] == "do" else None
+                callee = ix.funcs.get(f"EndProg.{m.group(1)}") if m else None
+                if callee is not None:
+                    subs = [sp[:-1] for sp in stmt_paths(callee.node.body) if sp[-1][1] in ("end", "return")]
+                    variants = [v + sub for v in variants for sub in subs]
+                else:
+                    variants = [v + (x,) for v in variants]
+            out |= set(variants)
+        return f, out
+
+    COVER_TESTS = {"state.lnum > self.upto": True, "self.upto < state.lnum": True, "state.lnum != self.upto": True,
+                   "state.lnum <= self.upto": False, "state.lnum == self.upto": False}
+    for q, want_text, what in (("EndProg.join", "self.text += state.line[state.pos:end]", "the unread part of the line up to `end`"),
+                               ("EndProg.join_line", "self.text += state.line[state.pos:]", "the unread rest of the line")):
+        f, ps = paths_of(q)
+        chk.count("L2-accumulation")
+        bad = ""
+        for pth in ps:
+            eff = [x[1] for x in pth if x[0] == "do"]
+            conds = {x[1]: x[2] for x in pth if x[0] == "cond"}
+            if [e for e in eff if e.startswith("self.text")] != [want_text]:
+                bad = f"text effects {[e for e in eff if e.startswith('self.text')]}"
+            new_line = [COVER_TESTS[c] == t for c, t in conds.items() if c in COVER_TESTS]
+            line_eff = [e for e in eff if e.startswith(("self.contline", "self.upto"))]
+            if len(new_line) != 1:
+                bad = "the line record is not guarded by a comparison of the current line number with the last one recorded"
+            elif new_line[0] and sorted(line_eff) != ["self.contline += state.line", "self.upto = state.lnum"]:
+                bad = f"on a new line the record must gain that line once and remember its number; effects {line_eff}"
+            elif not new_line[0] and line_eff:
+                bad = f"a line already recorded is recorded again; effects {line_eff}"
+            elif new_line[0] and eff.index("self.contline += state.line") > eff.index(want_text) and False:
+                bad = ""
+        chk.require(not bad and bool(ps), "L2-accumulation", q, f.where,
+                    f"{q.split('.')[1]} must append exactly {what} to the text and make the token's `line` hold every physical line the text "
+                    f"lies on exactly once (a multi-line string's first line twice, or its last line missing, gives wrong error text and "
+                    f"with-macro bodies); {bad}")
     # every caller moves the position to where the appended text ended
     for q, f in sorted(ix.funcs.items()):
         if f.rel != repo.TOKENIZE:
@@ -169,9 +207,11 @@ def rule_l2(chk: Check, ix: Index):
     for n in ast.walk(ap.node):
         if isinstance(n, ast.Call) and norm_stmt(n.func) == "EndProg":
             kws = {k.arg: norm_stmt(k.value) for k in n.keywords if k.arg}
-    chk.require(kws.get("text") == "self.line[start:end]" and kws.get("start") == "(self.lnum, start)" and kws.get("contline") == "self.line",
+    chk.require(kws.get("text") == "self.line[start:end]" and kws.get("start") == "(self.lnum, start)" and kws.get("contline") == "self.line"
+                and kws.get("upto") == "self.lnum",
                 "L2-accumulation", "TokenizerState.add_prog", ap.where,
-                "a new accumulation must start with the slice [start:end] and record (line, start) as its start")
+                "a new accumulation must start with the slice [start:end], record (line, start) as its start and the current line (with its "
+                "number) as the first physical line")
     # buffered text of earlier lines must be flushed before the mode changes: every guard in front of the FSTRING_MIDDLE emission
     # has to be true whenever the buffer is non-empty
     hf = ix.get("handle_fstring_progs")
@@ -211,8 +251,9 @@ def rule_l2(chk: Check, ix: Index):
                 "falling through re-scans the string's text as code and lets the next line close it")
     rs = ix.get("EndProg.reset")
     chk.count("L2-accumulation")
-    chk.require(sorted(norm_stmt(s) for s in rs.node.body) == ["self.contline = ''", "self.start = start", "self.text = ''"],
-                "L2-accumulation", "EndProg.reset", rs.where, "reset must restart the accumulation empty at the given position")
+    chk.require(sorted(norm_stmt(s) for s in rs.node.body) == ["self.contline = ''", "self.start = start", "self.text = ''", "self.upto = 0"],
+                "L2-accumulation", "EndProg.reset", rs.where,
+                "reset must restart the accumulation empty at the given position, with no line recorded yet")
 
 
 def rule_l3(chk: Check, ix: Index):
